@@ -180,7 +180,7 @@ def run(ctx):
     # V: random longer lists with all five names
     rng = random.Random(ctx.seed * 67867967 + 19)
     nv = 250 if tier == "quick" else 4000
-    names = ["Lab", "LabX2", "East Wing", "axi_7", "MiXeD", "COM4", "abc"]
+    names = ["Lab", "LabX2", "East Wing", "axi_7", "MiXeD", "COM4", "abc", "Z", "Q7"]
     vevs = []
     for _ in range(nv):
         L = rng.randint(0, 5)
